@@ -121,7 +121,7 @@ func judge(c Case) (*vf.Failure, string) {
 
 func TestValueSemantics(t *testing.T) {
 	defer vf.AfterCheck(t)
-	vf.Checks(208, 3000)
+	vf.Checks(160, 3000)
 	rapid.Check(t, func(t *rapid.T) {
 		var prog *gen.Program
 		var feats map[string]int
